@@ -50,8 +50,8 @@ var properties = map[string][]harnessSpec{
 		{Name: "midix.VerifC02RestStep", Marks: end},
 		{Name: "midix.VerifC02ControlStep", Marks: end},
 		{Name: "midix.VerifC02Ticks1", Solver: "cvc5", TimeoutS: 120, Quick: map[string]int{"C02.numDenoms1": 12, "C02.maxNum1": 255}, Thorough: map[string]int{"C02.numDenoms1": 39, "C02.maxNum1": 1023}, Marks: end},
-		{Name: "midix.VerifC02Ticks2", Solver: "cvc5", TimeoutS: 120, Quick: map[string]int{"C02.numDenoms2": 3, "C02.maxNum2": 15}, Thorough: map[string]int{"C02.numDenoms2": 9, "C02.maxNum2": 63}, Marks: end},
-		{Name: "midix.VerifC02Ticks3", Solver: "cvc5", TimeoutS: 300, Quick: map[string]int{"C02.numDenoms3": 1, "C02.maxNum3": 7}, Thorough: map[string]int{"C02.numDenoms3": 4, "C02.maxNum3": 15}, Marks: end},
+		{Name: "midix.VerifC02Ticks2", Solver: "cvc5", TimeoutS: 120, Quick: map[string]int{"C02.numDenoms2": 3, "C02.maxNum2": 15}, Thorough: map[string]int{"C02.numDenoms2": 6, "C02.maxNum2": 63}, Marks: end},
+		{Name: "midix.VerifC02Ticks3", Solver: "cvc5", TimeoutS: 300, Quick: map[string]int{"C02.numDenoms3": 1, "C02.maxNum3": 7}, Thorough: map[string]int{"C02.numDenoms3": 2, "C02.maxNum3": 15}, Marks: end},
 	},
 	"C07": {
 		{Name: "play.VerifC01WriteSequence", Quick: map[string]int{"C01.maxInstances": 2}, Thorough: map[string]int{"C01.maxInstances": 3}, Marks: end},
